@@ -35,8 +35,8 @@ MARKER = "SECRET-MARKER-7f3a9"
 
 def pre_build():
     import skeleton
-    sk, do, notes = skeleton.generate("/repo", with_do=True)
-    calls, imports = skeleton.xml_parser_calls("/repo")
+    sk, do, notes = skeleton.generate(os.environ.get("VERIF_REPO", "/repo"), with_do=True)
+    calls, imports = skeleton.xml_parser_calls(os.environ.get("VERIF_REPO", "/repo"))
     skeleton.write_lean(sk, os.path.join(VERIF, "lean", "Generated", "Skeleton.lean"), do, calls, imports)
 
 
@@ -82,6 +82,14 @@ def attacks(rng, decoy, port, thorough):
     out.append(("ext-subset-net", "dtd", '<!DOCTYPE x PUBLIC "-//x//y" "%s">' % net_uri, "", ""))
     out.append(("internal-subset-no-entity", "dtd", '<!DOCTYPE x [<!ELEMENT x ANY><!ATTLIST x a CDATA "d">]>', "", ""))
     out.append(("bare-doctype", "dtd", "<!DOCTYPE x>", "", ""))
+    # what may legally stand in front of the DOCTYPE or inside the first declaration: a comment or a processing instruction that
+    # contains markup-looking text, an entity whose replacement text is markup (anything that cuts the document "at the first
+    # element" or inspects only a prefix is fooled by these)
+    out.append(("comment-with-markup-before-doctype", "entity", '<!-- from <template> --><!DOCTYPE x [<!ENTITY e "expanded">]>', "&e;", ""))
+    out.append(("pi-with-markup-before-doctype", "entity", '<?client name="<x>"?><!DOCTYPE x [<!ENTITY e "expanded">]>', "&e;", ""))
+    out.append(("pi-before-doctype-external", "entity", '<?client a="<b"?><!DOCTYPE x [<!ENTITY e SYSTEM "%s">]>' % file_uri, "&e;", ""))
+    out.append(("entity-with-markup-value", "entity", '<!DOCTYPE x [<!ENTITY e "<b>expanded</b>">]>', "&e;", ""))
+    out.append(("entity-with-markup-value-attr", "entity", '<!DOCTYPE x [<!ENTITY m "<i/>"><!ENTITY e "expanded">]>', "", "&e;"))
     # the same declarations in big bodies (a long comment after the DOCTYPE): 70 KB and 1.2 MB
     pad70, pad1m = "<!--" + "p" * 70000 + "-->", "<!--" + "p" * 1200000 + "-->"
     out.append(("internal-text-70k", "entity", '<!DOCTYPE x [<!ENTITY e "expanded">]>' + pad70, "&e;", ""))
